@@ -747,6 +747,7 @@ def main():
         S.valid_stream = lambda: iter([(root, "replay", j)])
         S.extras_stream = lambda: iter([(root, "replay", strip(j), j)])
         S.malformed_stream = lambda: iter([(root, "replay", "?", j)])
+        S.nested_malformed_stream = lambda per_root=6: iter([])
         if root not in S.root_type:
             S.root_type[root] = {"kind": "reference", "name": root}
             S.root_kind[root] = "structure"
